@@ -33,9 +33,14 @@ fn base_rows() -> Vec<Row> {
 }
 
 fn env() -> Arc<Env> {
-    let spec = spec_min("W-c06");
+    env_with(3, 3)
+}
+
+/// `rows` x `cols` connection matrix: a word's right id indexes a row, its left id a column
+fn env_with(rows: usize, cols: usize) -> Arc<Env> {
+    let spec = spec_min(&format!("W-c06-{}x{}", rows, cols));
     let dir = write_world_files(&spec);
-    let matrix = Matrix::distinct(3, 3).to_text();
+    let matrix = Matrix::distinct(rows, cols).to_text();
     let base_rows = base_rows();
     let base_sys = compile_system(&matrix, &rows_to_csv(&base_rows)).expect("baseline compiles");
     Arc::new(Env { dir, matrix, base_rows, base_sys })
@@ -272,7 +277,7 @@ fn raw_baseline_row() -> Vec<String> {
 
 pub fn hostile_devs() -> Vec<(usize, String)> {
     let mut d: Vec<(usize, String)> = Vec::new();
-    for v in ["", "\\u{110000}", "\\uD800", "\\u{}", "a\\u002cb", "\u{0}"] {
+    for v in ["", "\\u{110000}", "\\uD800", "\\u{}", "a\\u002cb", "\u{0}", "a\\u0000b", "\\u{0}", "\\u0000"] {
         d.push((0, v.to_string()));
     }
     d.push((0, "あ".repeat(11000))); // 33000 bytes > 32767
@@ -353,7 +358,7 @@ impl FieldSpace {
 impl Space for FieldSpace {
     type State = Vec<u8>;
     fn name(&self) -> String {
-        format!("compiler/hostile-fields-{}", if self.user { "user" } else { "system" })
+        format!("compiler/hostile-fields-{}{}", if self.user { "user" } else { "system" }, if self.env.matrix.starts_with("3 3") { "" } else { "-non-square-matrix" })
     }
     fn init(&self) -> Vec<Vec<u8>> {
         vec![vec![]]
@@ -584,6 +589,16 @@ pub fn main(tier: Tier, replay: Option<String>) -> i32 {
         let devs = hostile_devs();
         let b = json!({"hostile_values": devs.len(), "max_simultaneous": tier.pick(2, 2)});
         jobs.push(job(FieldSpace { env: e.clone(), user, devs, max_devs: 2 }, Strategy::Bfs, Some(tier.pick(60, 1500)), b));
+    }
+    // (b') the same rows against non-square matrices (single deviations): an id between the two
+    // dimensions is legal on one side only
+    for (rows, cols) in [(3usize, 5usize), (5, 3)] {
+        let e2 = env_with(rows, cols);
+        for user in [false, true] {
+            let devs = hostile_devs();
+            let b = json!({"hostile_values": devs.len(), "max_simultaneous": 1, "matrix": [rows, cols]});
+            jobs.push(job(FieldSpace { env: e2.clone(), user, devs, max_devs: 1 }, Strategy::Bfs, Some(tier.pick(60, 600)), b));
+        }
     }
     // (a)
     let csv_alpha: Vec<Vec<u8>> = vec![b",".to_vec(), b"\"".to_vec(), b"\n".to_vec(), b"\r".to_vec(), b"0".to_vec(), b"1".to_vec(), b"-".to_vec(), b"a".to_vec(), "あ".as_bytes().to_vec(), b"\\".to_vec(), b"u".to_vec(), b"{".to_vec(), b"}".to_vec(), b"/".to_vec(), b"*".to_vec(), b"U".to_vec(), vec![0xFF], vec![0], b" ".to_vec(), b"3".to_vec()];
